@@ -82,6 +82,7 @@ type Result struct {
 	Panic        string    `json:"panic,omitempty"`
 	InputChanged bool      `json:"inchg,omitempty"`
 	Unstable     string    `json:"unstable,omitempty"` // the returned value changed after a later ParseReader call
+	Touched      string    `json:"touched,omitempty"`  // the caller's buffer (input bytes or its spare capacity) was written to
 	Shape        string    `json:"shape,omitempty"`    // nil-vs-empty structure of the value (mon.Shape), capped
 	MemoEntries  int       `json:"memo,omitempty"`
 	ChoiceEvals  int       `json:"choiceevals,omitempty"` // sum of Stats.ChoiceAltCnt = choice expressions actually evaluated
